@@ -765,8 +765,12 @@ func (f *frame) execNext(x *ssa.Next) {
 		c.assume(implies(and(f.guard, okT), not(sel(vis, k))))
 		c.counter["q"]++
 		qk := quote(fmt.Sprintf("q k %d", c.counter["q"]))
+		// (the map reference gets a plain constant name: defined names that expand to ite/not terms
+		// are not allowed inside patterns)
+		mref := c.fresh("itermap", SInt)
+		c.assume(eq(mref, m))
 		c.assume(implies(and(f.guard, not(okT), not(eq(m, tNil))), Term{fmt.Sprintf("(forall ((%s %s)) (! (=> (select (select %s %s) %s) (select %s %s)) :pattern ((select (select %s %s) %s))))",
-			qk, ks, dom.S, m.S, qk, vis.S, qk, dom.S, m.S, qk), SBool}))
+			qk, ks, dom.S, mref.S, qk, vis.S, qk, dom.S, mref.S, qk), SBool}))
 		c.heapSet(f.heap, vkey, ite(and(f.guard, okT), store(vis, k, tTrue), vis))
 	}
 	f.vals[x] = Tuple{okT, k, v}
